@@ -47,6 +47,7 @@ structure WState where
   evDead : Bool := false
   evChecks : Nat := 0
   afterPurge : Bool := false   -- between an op that makes deletions effective and the next mutating op
+  afterDeadOp : Bool := false  -- between a mutating storage access through a dead handle and the next mutating op
   -- statistics
   cases : Nat := 0
   lines : Nat := 0
@@ -173,7 +174,7 @@ def worldLine (st : WState) (line : String) : WState × List String :=
   | ["case", id] =>
     let (st, outs) := st.closeCase
     ({ st with caseHash := 7, caseNontrivial := false, caseId := id, lineNo := 0, model := {},
-               diverged := false, pending := [], mon := {}, monDead := false, lgHeld := [], lgDeferred := [], lgDead := false, evMember := {}, evMask := {}, evOff := [], evDead := false, afterPurge := false, afterMaint := false, afterRjoin := false, pendingFault := none, leaked := st.leaked + st.mon.leaked, cases := st.cases + 1 }, outs)
+               diverged := false, pending := [], mon := {}, monDead := false, lgHeld := [], lgDeferred := [], lgDead := false, evMember := {}, evMask := {}, evOff := [], evDead := false, afterPurge := false, afterDeadOp := false, afterMaint := false, afterRjoin := false, pendingFault := none, leaked := st.leaked + st.mon.leaked, cases := st.cases + 1 }, outs)
   | lt =>
     let (r, ledger) := splitLedger r0
     let st := { st with lineNo := st.lineNo + 1, lines := st.lines + 1,
@@ -182,7 +183,23 @@ def worldLine (st : WState) (line : String) : WState × List String :=
     let (nestedTag, lt) := match lt with
       | "in" :: t :: rest => (t.toNat?, rest)
       | _ => (none, lt)
+    -- `gget` / `ggetmut` / `gins` / `grem`: the same operations through the generic storage traits — same model ops
+    let lt := match lt with
+      | h :: rest => if ["gget", "ggetmut", "gins", "grem"].contains h then (h.drop 1).toString :: rest else lt
+      | [] => lt
     let l := " ".intercalate lt
+    -- zero-sized component values are counted by the harness (they are indistinguishable): a mismatch reported with
+    -- `drop_world` is a C08 verdict of its own; the remaining tokens are the ordinary result
+    let (r, zstOut) :=
+      match toks r with
+      | "dropped" :: a :: b :: rest =>
+        if a.startsWith "zst_made=" && b.startsWith "zst_dropped=" then
+          (" ".intercalate ("dropped" :: rest),
+           [s!"MON C08 case={st.caseId} line={st.lineNo} C08 zero-sized component values: {a} {b} when the world was dropped (each value constructed must be destroyed exactly once) op=[{l}] impl=[{r}]"])
+        else (r, [])
+      | _ => (r, [])
+    let st := if zstOut.isEmpty then st else { st with mons := st.mons + 1 }
+    let (st', outs') : WState × List String := (
     -- C19 control lines -------------------------------------------------------------------
     match lt, toks r with
     | ["fault", n], _ =>
@@ -208,6 +225,17 @@ def worldLine (st : WState) (line : String) : WState × List String :=
              ({ st with monDead := true, mons := st.mons + 1 },
               [s!"MON {why.take 3} case={st.caseId} line={st.lineNo} {why} op=[dump] impl=[{r}]"])
          (st, out1 ++ out2))
+    | ["entry_far", _k, v], rts =>
+      -- probe outside the model (C08): `entry_inner(2^24+1).or_insert(v)`; the mask refuses the index, the value handed
+      -- over must be destroyed exactly once all the same (unwind guard of the insertion). Ledger bookkeeping only.
+      (match parseInt? v with
+       | none => (st, [s!"BAD case={st.caseId} line={st.lineNo} unparsable entry_far line"])
+       | some v =>
+         if rts == ["skip"] || rts == ["nostore"] || st.lgDead || ledger.isNone then (st, []) else
+         let (st, o1) := st.lgSettle l
+         if st.lgDead then (st, o1) else
+         ({ st with lgHeld := st.lgHeld ++ nz [v], lgDeferred := nz (ledger.getD []), lgChecks := st.lgChecks + 1,
+                    caseNontrivial := true }, o1))
     | _, _ =>
     match parseWOp lt with
     | none => (st, [s!"BAD case={st.caseId} line={st.lineNo} unparsable op: {l0}"])
@@ -290,7 +318,8 @@ def worldLine (st : WState) (line : String) : WState × List String :=
             let mutatingThroughDead := match op with
               | .getMut _ h _ _ | .ins _ h _ | .rem _ h | .entry _ h _ | .mutOrDefault _ h _ _ => dead h
               | _ => false
-            let st := { st with afterMaint := afterMaint, afterRjoin := afterRjoin, afterPurge := afterPurge }
+            let afterDeadOp := if mutatingThroughDead then true else if isProbe then st.afterDeadOp else false
+            let st := { st with afterMaint := afterMaint, afterRjoin := afterRjoin, afterPurge := afterPurge, afterDeadOp := afterDeadOp }
             let shown := match nestedTag with
               | some t => s!"in {t} {l}"
               | none => l
@@ -308,6 +337,9 @@ def worldLine (st : WState) (line : String) : WState × List String :=
                 else []) ++
                 (if tag == "C04" && st.afterPurge && (match op with | .mask _ | .get .. | .has .. | .count _ | .isEmpty _ | .slice _ => true | _ => false) then
                   [s!"MON C05 case={st.caseId} line={st.lineNo} C05 after a deletion took effect the components differ from 'the deleted entities lost theirs, every other entity kept its own' ({why}) op=[{shown}] impl=[{r}]"]
+                else []) ++
+                (if tag == "C04" && st.afterDeadOp && !mutatingThroughDead && (match op with | .mask _ | .get .. | .has .. | .count _ | .isEmpty _ | .slice _ => true | _ => false) then
+                  [s!"MON C03 case={st.caseId} line={st.lineNo} C03 an operation through a dead handle, although answered as absent, changed the storage ({why}) op=[{shown}] impl=[{r}]"]
                 else []) ++
                 (if tag == "C03" && mutatingThroughDead then
                   [s!"MON C04 case={st.caseId} line={st.lineNo} C04 an operation through a dead handle was not refused: the map from live entity to component changed without an operation on a live entity ({why}) op=[{shown}] impl=[{r}]"]
@@ -385,7 +417,8 @@ def worldLine (st : WState) (line : String) : WState × List String :=
                   ({ st with evDead := true, mons := st.mons + 1 },
                    [s!"MON C12 case={st.caseId} line={st.lineNo} C12 replaying the insertion and removal events gives membership {sortNats mem} but the storage reports {sortNats ids} op=[{l}] impl=[{r}]"])
           | _, _ => (st, [])
-        (st, out1 ++ out2 ++ out3 ++ out4)
+        (st, out1 ++ out2 ++ out3 ++ out4))
+    (st', zstOut ++ outs')
 
 partial def worldLoop (h : IO.FS.Stream) (st : WState) : IO WState := do
   let line ← h.getLine
